@@ -118,7 +118,9 @@ def load_py(D, groups=None, species=None, **kw):
         style = dict(style, late_species=None)        # (positions refer to D.species, not to the overriding list)
     xml = gen.orthoxml(species if species is not None else D.species, groups if groups is not None else D.groups,
                        dbsplit=bool(D.meta.get('dbsplit')), style=style)
-    kw.setdefault('use_internal_name', D.naming == 'own')
+    if D.naming == 'own' or 'use_internal_name' in kw or len(xml) % 2:
+        kw.setdefault('use_internal_name', D.naming == 'own')
+    # (else: synthesised names are the documented default -- the argument is left out in half of those loads)
     phylo_dir = kw.pop('phyloxml_dir', None)
     if phylo_dir and D.T[0] != '':      # (a PhyloXML clade cannot carry an empty name; unlabelled roots go the Newick way)
         # the same tree supplied as a PhyloXML file (names in <taxonomy><scientific_name>)
